@@ -19,6 +19,9 @@ CLAIMED = {
  "C01": ("exploration", "deterministic simulation: seeded emitter interleavings (yield stalls), latency/jitter/chunking network, typed-handler delivery oracle keyed by unique emission ids",
          "Real sio server and 1-3 real sio clients over the simulated network on polling / websocket / polling->websocket upgrade, recovery on/off, three buffer limits; up to 8 emitter tasks per run emit events of 12 argument-shape classes and 17 event names with size targets at the 125/126, 32 KiB, 64 KiB and limit boundaries; each emission must reach exactly one handler, the one registered for its name, with equal arguments; any disconnect on the fault-free network is a violation.",
          "§7 C01", TB),
+ "C04": ("exploration", "deterministic simulation: real adapters + BroadcastOperator behind a recording rig; seeded membership/broadcast histories against a reference model, interval semantics under concurrency with stalls on the adapter mutex, porcupine for membership operations; exhaustive 3x3 matrix as a fixed plan",
+         "Component rig over the repository's own SocketStore/Socket interfaces (in-memory and session-aware adapter). Sequential histories of join/leave/disconnect/SocketsJoin/SocketsLeave/DisconnectSockets/namespace and socket broadcasts/operator reuse: recipients equal the model exactly, each once, never the sender, membership equals the net effect of joins and leaves, a disconnected socket is in no room. Fixed plan: all 2^9 membership matrices of 3 sockets x 3 rooms x all 64 (T,E) (exhaustive). Concurrent histories (2-5 tasks, stalls while apply() has released its mutex): a socket whose membership nobody touched during the broadcast gets it iff the model says so, everybody else 0 or 1 times, nobody twice; AddAll/Delete/DeleteAll/SocketRooms histories linearizable against a map of sets.",
+         "§7 C04", TB),
  "C06": ("fault_enumeration", "deterministic simulation: termination cause x phase matrix with simultaneous causes + fixed sweep of connection cuts over byte offsets; lifecycle-handler counting oracle, server-state residue checks, sid probe",
          "Real sio server, a victim client and a bystander. Causes {client Disconnect, manager Close, server Disconnect(false/true), DisconnectSockets(false/true), Server.Close, cut, fin, black-hole}, one or two at the same fake instant, in phases {idle, mid-burst both ways, during the upgrade, while a namespace middleware sleeps, Engine.IO session without CONNECT}; fixed sweep: victim's polling/WebSocket connections cut at byte k. Every server socket whose connection handler ran: disconnecting once with rooms still joined, then disconnect once, reason in the cause's set; client: one disconnect per connection; afterwards the socket is in no Sockets() list and no room, the old Engine.IO sid answers {code:1}; the bystander is untouched; no closing call hangs.",
          "§7 C06", TB),
